@@ -70,6 +70,13 @@ pub fn programs() -> Vec<(String, String)> {
             format!("let o = object begin function +({}) -> a0 end; print(\"~\\n\", o.+({}))", list(n, |i| format!("a{}", i)), list(n, |i| format!("{}", i))),
         ));
     }
+    // 254..258 (and 513) blocks in one frame: scope bookkeeping at the width of a byte
+    for n in [254usize, 255, 256, 257, 258, 513] {
+        for (frame, fname) in ["top-level", "function", "method"].iter().enumerate() {
+            let prog = crate::gen::scale::many_scopes(n, frame);
+            out.push((format!("{}-blocks-in-one-{}-frame", n, fname), crate::render::text(&prog, crate::render::Style::Minimal)));
+        }
+    }
     // integer literals around the 32-bit range (beyond it the parser refuses; it must do so alike everywhere)
     for (name, lit) in [("max", "2147483647"), ("min", "-2147483648"), ("max-plus-1", "2147483648"), ("min-minus-1", "-2147483649"), ("u32-max", "4294967295"), ("i64-max-plus-1", "9223372036854775808")] {
         out.push((format!("integer-literal-{}", name), format!("print(\"before\\n\"); print(\"~\\n\", {})", lit)));
@@ -87,9 +94,9 @@ pub fn programs() -> Vec<(String, String)> {
 /// compile time because the pool is searched linearly: thorough tier only.
 pub fn huge_programs() -> Vec<(String, String)> {
     let mut out: Vec<(String, String)> = vec![];
-    // the pool also holds a handful of constants of its own (entry name, method, null), so a
-    // few counts around the limit are tried: one of them is the exact boundary
-    for n in [65500usize, 65528, 65531, 65533, 65535, 65537] {
+    // the pool also holds a handful of constants of its own (entry name, method, null), so 
+    // every count around the limit is tried: two of them are the exact boundaries (index and count)
+    for n in [65500usize, 65529, 65530, 65531, 65532, 65533, 65534, 65535, 65536, 65537] {
         let lits: Vec<String> = (1..=n).map(|i| i.to_string()).collect();
         out.push((format!("{}-integer-constants", n), format!("{}; print(\"done\\n\")", lits.join("; "))));
     }
